@@ -6,13 +6,17 @@ one verdict line per input line: `ok`, `DIFF …` (model ≠ implementation),
 -/
 import SamVerif.Drive.C12
 import SamVerif.Drive.C10
+import SamVerif.Drive.C18
 open SamVerif.Drive
 
 def dispatch (line : String) : String :=
   let (lhs, impl) := splitArrow line
   match words lhs with
   | "c12" :: args => C12.handle args impl
-  | k :: args => if k.startsWith "c10." then C10.handle k args impl else "bad-op"
+  | k :: args =>
+    if k.startsWith "c10." then C10.handle k args impl
+    else if k.startsWith "c18." then C18.handle k args impl
+    else "bad-op"
   | _ => "bad-op"
 
 partial def loop (h : IO.FS.Stream) (out : IO.FS.Stream) : IO Unit := do
